@@ -10,7 +10,7 @@ Theorem C14_books_hold_whatever_fails :
   forall (bk : Z) (Known : dacct -> Prop),
   (forall a, Known a -> da_key a <> bk) ->
   (forall a a', Known a -> Known a' -> da_key a = da_key a' -> da_id a = da_id a') ->
-  forall ops w, winv bk Known w -> booked_after false (dw_subs w) = true -> Forall good_op ops ->
+  forall ops w, winv bk Known w -> booked_after false (dw_subs w) = true -> Forall (good_op Known) ops ->
   books_after_every_block w ops.
 Proof. exact history_keeps_books. Qed.
 Print Assumptions C14_books_hold_whatever_fails.
